@@ -822,7 +822,7 @@ func RunC19(t *testing.T, tape *Tape) *Outcome {
 		interruptEvery = 1 + tape.Choose(3)
 	}
 	termAt := -1 // none; 0 = Terminate is the first request of the session, before any resume
-	if prog != nil && len(prog.Tail) == 0 && !twoSessions && tape.Choose(8) == 7 {
+	if prog != nil && len(prog.Tail) == 0 && !twoSessions && tape.Choose(5) == 4 {
 		termAt = tape.Choose(9)
 	}
 	if switchAt > 0 {
